@@ -201,6 +201,82 @@ def best_match_models(r, n):
     return out
 
 
+def derived_models(r, n):
+    """DerivedElement values (with their real `type`) in fields typed with a BASE class whose sibling
+    subclasses have overlapping key sets: the decoder must follow `type`, not guess by score."""
+    out = []
+    for _ in range(n):
+        mns = r.choice([None, None, "urn:m"])
+        node = {"name": "Node", "meta": {}, "base": None, "fields": [F("id", "Attribute", ("prim", "str"), optional=True)]}
+        label = {"name": "Label", "meta": {}, "base": "Node", "fields": [F("text", "Element", ("prim", "str"), optional=True)]}
+        counter = {"name": "Counter", "meta": {}, "base": "Node", "fields": [F("text", "Element", ("prim", "int"), optional=True)]}
+        wide = {"name": "Wide", "meta": {}, "base": "Node", "fields": [F("text", "Element", ("prim", "str"), optional=True),
+                                                                      F("extra", "Element", ("prim", "float"), optional=True)]}
+        subs = [label, counter, wide]
+        r.shuffle(subs)
+        holder = {"name": "Holder", "meta": r.choice([{}, {"namespace": "urn:h"}]), "base": None,
+                  "fields": [F("one", "Element", ("class", "Node"), optional=True), F("many", "Element", ("class", "Node"), list=True)]}
+        desc = {"module_ns": mns, "enums": [], "root": "Holder", "slices": ["derived"], "classes": [holder, node] + subs}
+        tq = lambda cn: ("{%s}%s" % (mns, cn)) if mns else cn   # noqa: E731
+
+        def val(cn):
+            if cn == "Label":
+                fs = {"id": r.choice([None, {"__p__": "str", "v": "i"}]), "text": {"__p__": "str", "v": r.choice(["42", "abc", "7", "1.5"])}}
+            elif cn == "Counter":
+                fs = {"id": None, "text": {"__p__": "int", "v": r.randint(0, 99)}}
+            else:
+                fs = {"id": None, "text": {"__p__": "str", "v": r.choice(["42", "w"])}, "extra": r.choice([None, {"__p__": "float", "v": "1.5"}])}
+            return {"__cls__": cn, "fields": fs}
+
+        def der(q, cn):
+            return {"__derived__": {"qname": q, "value": val(cn), "type": tq(cn)}}
+        cases = []
+        for _ in range(4):
+            rec = {"__cls__": "Holder", "fields": {
+                "one": r.choice([None, der("one", r.choice(["Label", "Counter", "Wide"])), der("one", "Label")]),
+                "many": [der("many", r.choice(["Label", "Counter", "Wide"])) for _ in range(r.choice([0, 1, 2, 3]))]}}
+            for fac in ("dict", "filter_none"):
+                cases.append({"recipe": rec, "root": "Holder", "factory": fac, "ignore": False})
+        out.append({"desc": desc, "src": genmodels.render_source(desc), "classes": [c["name"] for c in desc["classes"]], "enums": [], "cases": cases})
+    return out
+
+
+def allnone_models(r, n):
+    """instances whose fields are all None, and instances of field-less classes, under compound / base-typed
+    fields where exactly one candidate class fits the keys: it binds with score 0 and must be selected."""
+    out = []
+    for _ in range(n):
+        style = r.choice(["compound", "base", "empty"])
+        if style == "compound":
+            a = {"name": "A", "meta": {}, "base": None, "fields": [F("k0", "Element", ("prim", "int"), optional=True), F("k1", "Element", ("prim", "str"), optional=True)]}
+            b = {"name": "B", "meta": {}, "base": None, "fields": [F("m0", "Element", ("prim", "str"), optional=True)]}
+            lst = r.random() < 0.5
+            root = {"name": "R", "meta": {}, "base": None, "fields": [{"name": "item", "kind": "Elements", "list": lst,
+                    "choices": [{"name": "a", "type": ("class", "A")}, {"name": "b", "type": ("class", "B")}]}]}
+            classes = [root, a, b]
+            mk = lambda: r.choice([{"__cls__": "A", "fields": {"k0": None, "k1": None}}, {"__cls__": "B", "fields": {"m0": None}},   # noqa: E731
+                                   {"__cls__": "A", "fields": {"k0": {"__p__": "int", "v": 0}, "k1": None}}])
+            val = [mk() for _ in range(r.choice([1, 2]))] if lst else mk()
+            rec = {"__cls__": "R", "fields": {"item": val}}
+        elif style == "base":
+            nn = {"name": "N", "meta": {}, "base": None, "fields": [F("x", "Element", ("prim", "str"), optional=True)]}
+            ss = {"name": "S", "meta": {}, "base": "N", "fields": [F("y", "Element", ("prim", "int"), optional=True)]}
+            root = {"name": "R", "meta": {}, "base": None, "fields": [F("f", "Element", ("class", "N"), optional=True), F("g", "Element", ("class", "N"), list=True)]}
+            classes = [root, nn, ss]
+            sv = {"__cls__": "S", "fields": {"x": None, "y": None}}
+            rec = {"__cls__": "R", "fields": {"f": sv, "g": [sv] * r.choice([0, 1, 2])}}
+        else:
+            e = {"name": "E", "meta": {}, "base": None, "fields": []}
+            root = {"name": "R", "meta": {}, "base": None, "fields": [{"name": "v", "kind": "Elements", "list": True,
+                    "choices": [{"name": "e", "type": ("class", "E")}, {"name": "i", "type": ("prim", "int")}]}]}
+            classes = [root, e]
+            rec = {"__cls__": "R", "fields": {"v": [r.choice([{"__cls__": "E", "fields": {}}, {"__p__": "int", "v": 3}]) for _ in range(r.choice([1, 2, 3]))]}}
+        desc = {"module_ns": None, "enums": [], "root": "R", "slices": ["all-none"], "classes": classes}
+        cases = [{"recipe": rec, "root": "R", "factory": fac, "ignore": False} for fac in ("dict", "filter_none")]
+        out.append({"desc": desc, "src": genmodels.render_source(desc), "classes": [c["name"] for c in classes], "enums": [], "cases": cases})
+    return out
+
+
 def _val(tp, text):
     if tp == "int":
         return int(text)
@@ -310,6 +386,7 @@ def run(ck: Check):
         models.append({"desc": desc, "src": genmodels.render_source(desc), "classes": [c["name"] for c in desc["classes"]],
                        "enums": [], "cases": [{"recipe": rec, "root": desc["root"], "factory": fac, "ignore": False}], "witness": cls})
     models += special_models(ck.rng) + tuple_models(ck.rng) + best_match_models(ck.rng, ck.n(12, 200))
+    models += derived_models(ck.rng, ck.n(12, 200)) + allnone_models(ck.rng, ck.n(18, 300))
     models += gen_cases(ck, n_models, per_model)
     res = run_impl("impl_c04.py", {"models": [{k: m[k] for k in ("src", "classes", "enums", "cases")} for m in models]}, timeout=1500)
     unsupported = [(i, m["unsupported"]) for i, m in enumerate(res["models"]) if m["unsupported"]]
